@@ -292,7 +292,7 @@ static int cmd_run(const Opts& o) {
 	for (pid_t p : pids) {
 		int st = 0; waitpid(p, &st, 0); if (!WIFEXITED(st) || WEXITSTATUS(st) != 0) worker_died = true;
 		// scratch directory of the worker's command-line steps
-		for (const char* base : {"/dev/shm", tmp.c_str()}) { std::string d = std::string(base) + "/vsim-cli-" + std::to_string(p); for (const char* f : {"/a.timbuk", "/b.timbuk", "/stdout.txt"}) unlink((d + f).c_str()); rmdir(d.c_str()); }
+		for (const char* base : {"/dev/shm", tmp.c_str()}) { char pb[16]; snprintf(pb, sizeof pb, "%010d", int(p)); std::string d = std::string(base) + "/vsim-cli-" + pb; for (const char* f : {"/a.timbuk", "/b.timbuk", "/stdout.txt"}) unlink((d + f).c_str()); rmdir(d.c_str()); }
 	}
 	Agg a;
 	for (int w = 0; w < o.workers; ++w) { std::string f = runid + "-w" + std::to_string(w) + ".agg"; agg_merge_file(a, f); unlink(f.c_str()); }
@@ -366,6 +366,12 @@ static int cmd_one(const Opts& o) {
 	return r.status == 1 ? 0 : 1;
 }
 
+static void cleanup_own_cli_dir() {
+	char pb[16]; snprintf(pb, sizeof pb, "%010d", int(getpid()));
+	const char* t = getenv("VSIM_TMP"); std::string tmp = t ? t : "build/tmp";
+	for (const std::string& base : {std::string("/dev/shm"), tmp}) { std::string d = base + "/vsim-cli-" + pb; for (const char* f : {"/a.timbuk", "/b.timbuk", "/stdout.txt"}) unlink((d + f).c_str()); rmdir(d.c_str()); }
+}
+
 int main(int argc, char** argv) {
 	// fixed addresses for stack, libraries and text: re-exec once without ASLR
 	if (!getenv("VSIM_NO_REEXEC")) {
@@ -389,6 +395,7 @@ int main(int argc, char** argv) {
 	if (!getenv("VSIM_PASSTHROUGH")) simheap::map_arena();
 	load_known_findings(o.known);
 	signal(SIGPIPE, SIG_IGN);
+	atexit(cleanup_own_cli_dir);
 	if (o.cmd == "run") return cmd_run(o);
 	if (o.cmd == "one") return cmd_one(o);
 	if (o.cmd == "replay") { bool quiet = false; for (int i = 2; i < argc; ++i) if (std::string(argv[i]) == "--quiet") quiet = true; return replay_file(o.file, o.wall, quiet); }
